@@ -39,7 +39,7 @@ M = Monitor(
     required_cells={"all": ["path=delaunay", "path=nnls-fallback", "path=affine-cone", "class=interior",
                             "class=facet-inside", "class=facet-outside", "class=corner", "class=far", "class=near-outside", "class=near-inside",
                             "K=matrix", "K=vector", "K=scalar", "K=none", "lb=pos", "lb=zero", "ub=inf", "ub=finite",
-                            "normalized", "relative=False", "m=2", "target-rank=1"]},
+                            "normalized", "relative=False", "m=2", "target-rank=1", "sparse-A"]},
     required_events=["hull.path"],
     assumptions=["zonotope facet normals enumerated from (m-1)-subsets of columns (full row rank)",
                  "indeterminate band |depth| < 1e-6*extent: only soundness is asserted",
@@ -259,7 +259,13 @@ def _chroma_depth(Pc, q):
 def gen_chroma(rng, i):
     m = int(rng.integers(2, 5)) if i % 3 else 2
     n = int(rng.integers(m, min(8, m + 3) + 1))
-    s = gen.make_system(rng, m=m, n=n, ubkind="finite", kkind=["none", "scalar", "vector"][rng.integers(3)])
+    if i % 2:
+        # sparse capture matrix, dark lower corner (lb = 0, zero baseline): gamut corners with zero components
+        s = gen.make_system(rng, m=m, n=n, ubkind="finite", kkind=["none", "scalar", "vector"][rng.integers(3)],
+                            sparse=True, lbkind="zero", basekind="zero")
+        s["sparse"] = True
+    else:
+        s = gen.make_system(rng, m=m, n=n, ubkind="finite", kkind=["none", "scalar", "vector"][rng.integers(3)])
     Mt, c0, lbv, ubv = gen.sys_arrays(s)
     X = gen.interior_x(rng, lbv, ubv, 5, margin=0.05)
     lam = np.exp(rng.uniform(-2, 2, 5))
@@ -270,6 +276,12 @@ def gen_chroma(rng, i):
         T.append((0.9 * e + 0.1 * rng.dirichlet(np.ones(m))) * np.exp(rng.uniform(0, 3))); cls.append("near-simplex-corner")
     for _ in range(3):
         T.append(rng.dirichlet(np.ones(m)) * np.exp(rng.uniform(0, 3))); cls.append("random")
+    # chromaticities just inside single-source corners of the chromatic gamut (mostly one source, a little of the rest)
+    for _ in range(3):
+        x = lbv + 0.02 * (ubv - lbv) * rng.random(n)
+        j = int(rng.integers(n))
+        x[j] = lbv[j] + (ubv[j] - lbv[j]) * rng.uniform(0.5, 0.95)
+        T.append((Mt @ x + c0) * np.exp(rng.uniform(-1, 1))); cls.append("near-source-corner")
     s.update({"B": np.array(T), "X": X, "lam": lam, "classes": cls, "relative": bool(rng.integers(4) != 0)})
     return s
 
@@ -283,6 +295,8 @@ def chk_chroma(inp, c):
     Mt, c0, lbv, ubv = gen.sys_arrays(s)
     m, n = Mt.shape
     c.cell(*gen.sys_cells(s), "normalized")
+    if inp.get("sparse"):
+        c.cell("sparse-A")
     # oracle-side corner enumeration
     corners = np.array([[ubv[j] if (k >> j) & 1 else lbv[j] for j in range(n)] for k in range(2 ** n)])
     P = corners @ Mt.T + c0
